@@ -2543,6 +2543,9 @@ class sptensor:
 
             return
         # Case I(b): Value is zero or scalar
+        # (anything else is rejected before the tensor is resized)
+        if not isinstance(value, (int, float)):
+            assert False, "Invalid assignment value"
 
         # First, resize the tensor, determine new size of existing modes
         newsz = []
